@@ -7,10 +7,11 @@
    every branch has one more child than keys; Chain - the leaf chain visits exactly the
    leaves in left-to-right order and ends; the validators accept the state; and the height
    is logarithmic: a tree of height h >= 1 holds at least 2*(c/2)*(c/2+1)^(h-1) entries.
-   OBLIGATIONS: C04_reachable_states_valid C04_validators_accept C04_height_logarithmic C04_every_step_preserves C04_nonvacuous *)
+   OBLIGATIONS: C04_reachable_states_valid C04_validators_accept C04_height_logarithmic C04_every_step_preserves C04_nonvacuous C04_chain_walk_visits_leaves *)
 From BPT Require Import Common.Base Common.AMap Rust.Arena Rust.Tree Rust.Heap Rust.Readers Rust.Run
      Rust.InvDefs Rust.Repr Rust.Spec Rust.ReachDefs Rust.TreeFactsI Rust.Counting Rust.ValidAccept Rust.ValidSound
      Rust.Reach Props.Reachable.
+From BPT Require Extra.RustExtra.
 
 Theorem C04_reachable_states_valid :
   forall (V : Type) (c : nat) (ops : list (op V)), 4 <= c -> fits (ops_weight ops) ->
@@ -54,3 +55,10 @@ Theorem C04_every_step_preserves :
 Proof. exact step_good. Qed.
 
 Definition C04_nonvacuous := (ReachExamples.ex_agree, CountingExamples.ex_counts).
+
+(* at ARENA level: the walk from get_first_leaf_id along next visits exactly the tree's leaves in order, and the arenas represent the tree *)
+Theorem C04_chain_walk_visits_leaves : forall (V : Type) (c : nat) (ops : list (op V)), 4 <= c -> fits (ops_weight ops) ->
+  exists b fid, state_after c ops = Some b /\ get_first_leaf_id (flatten b) = Ok (Some fid) /\
+    chain_ids (S (S (length (store (hleaves (flatten b)))))) (flatten b) (Some fid) = Ok (leaf_ids (root b)) /\
+    repr (flatten b) (root b).
+Proof. exact RustExtra.chain_walk_visits_leaves. Qed.
